@@ -153,7 +153,7 @@ static void String_Del(var self) {
 
 static void String_Assign(var self, var obj) {
   struct String* s = self;
-  char* val = c_str(obj);
+  size_t n = strlen(c_str(obj));
   
 #if CELLO_ALLOC_CHECK == 1
   if (header(self)->alloc is (var)AllocStack
@@ -162,7 +162,7 @@ static void String_Assign(var self, var obj) {
   }
 #endif
   
-  s->val = realloc(s->val, strlen(val) + 1);
+  s->val = realloc(s->val, n + 1);
   
 #if CELLO_MEMORY_CHECK == 1
   if (s->val is NULL) {
@@ -170,7 +170,7 @@ static void String_Assign(var self, var obj) {
   }
 #endif
 
-  strcpy(s->val, val);
+  memmove(s->val, c_str(obj), n + 1);
 }
 
 static char* String_C_Str(var self) {
